@@ -112,6 +112,8 @@ func c08Reposition(c *Ctx) {
 
 func runC08(c *Ctx) {
 	c08Reposition(c)
+	// a reader that closes its current source while it stays in use forgets it
+	runClosedFieldRule(c, "C08.closed", nil, 2)
 	p := c.P
 	pc := newPathCons(p)
 	rule := "C08.coherence"
